@@ -3,9 +3,10 @@
     WriteBitString, the completion tag of ToFiftHex / GetTopUppedArray), behaves
     like the ideal bit list WHATEVER the buffer holds past [len].
 
-    [Inv] says nothing about the bits of the buffer at positions >= len; the
-    aligned fast path of ReadBits really leaves the source's following bits
-    there ([read_bits_bs_keeps_stale_bits]).  All the refinement theorems below
+    [Inv] says nothing about the bits of the buffer at positions >= len; On(n)
+    with n >= len really puts arbitrary bits there ([set_bit_spec]; before its
+    repair the aligned fast path of ReadBits did, too — Proofs/C06History.v).
+    All the refinement theorems below
     are therefore statements "for every garbage past len"; they hold because
     WriteBit(false) clears its bit ([Lib.Bits.set_nth_firstn_S]). *)
 From Coq Require Import List NArith Arith Lia Bool.
@@ -77,10 +78,14 @@ Proof.
       by (rewrite Nat.mul_add_distr_l, div8_mul by exact Hra; exact Hnb).
     rewrite div8_mul by exact Hra.
     eexists; split; [reflexivity|].
+    set (l := firstn n (skipn (rcur s) (buf s))).
+    assert (Hl : length l = n).
+    { unfold l. rewrite firstn_length, skipn_length. lia. }
     unfold abs, Inv; cbn [buf len cap rcur].
-    rewrite firstn_firstn, Nat.min_l by lia.
-    rewrite firstn_length, skipn_length, Nat.min_l by lia.
-    splits; try lia; try reflexivity. apply mul8_mod.
+    rewrite app_length, Hl. unfold zeros at 2 3. rewrite repeat_length.
+    splits; try lia; try reflexivity.
+    + rewrite <- Hl at 1. apply firstn_app_exact.
+    + replace (n + (8 * nbytes n - n))%nat with (8 * nbytes n)%nat by lia. apply mul8_mod.
   - rewrite short_false by lia.
     rewrite write_bits_g_real.
     set (l := firstn n (skipn (rcur s) (buf s))).
@@ -106,13 +111,56 @@ Proof.
   - rewrite S in E. discriminate.
 Qed.
 
-(* the fast path is byte-faithful: the source's following bits stay in the
-   result's last byte, after its length *)
-Lemma read_bits_bs_keeps_stale_bits :
+(* the fast path: the result's buffer is the n bits followed by zeros up to
+   the byte boundary — nothing of the source after the window survives *)
+Lemma read_bits_bs_aligned_clean n s s' r :
+  (rcur s mod 8 = 0)%nat -> read_bits_bs n s = (s', Ok r) ->
+  buf r = firstn n (skipn (rcur s) (buf s)) ++ zeros (8 * nbytes n - n).
+Proof.
+  intros Hra. unfold read_bits_bs, read_bits_bs_g.
+  destruct (avail_read s <? n); [discriminate|].
+  rewrite Hra. cbn [Nat.eqb].
+  destruct (short _ _); [discriminate|].
+  rewrite div8_mul by exact Hra. intros E. injection E as _ <-. reflexivity.
+Qed.
+
+Example read_bits_bs_clean_example :
   let src := fst (write_bits (bits_of 16 49151) (new_bs 16)) in   (* 0xBFFF *)
   exists s' r, read_bits_bs 1 src = (s', Ok r) /\
-    abs r = [true] /\ buf r = [true; false; true; true; true; true; true; true].
+    abs r = [true] /\ buf r = [true; false; false; false; false; false; false; false].
 Proof. vm_compute. eexists _, _. split; [reflexivity|split; reflexivity]. Qed.
+
+(** *** On / Off: any position below cap, len untouched.  Below len the ideal
+    bit changes, at or after len only junk changes — this is how a buffer
+    legitimately gets arbitrary bits past its length. *)
+Lemma firstn_set_nth_lt {A} (l : list A) : forall n k (v : A),
+  (n < k)%nat -> set_nth n v (firstn k l) = firstn k (set_nth n v l).
+Proof.
+  induction l as [|h t IH]; intros n k v Hn.
+  - rewrite firstn_nil. destruct n; cbn [set_nth]; rewrite firstn_nil; reflexivity.
+  - destruct k as [|k]; [lia|]. destruct n as [|n]; cbn [set_nth firstn]; [reflexivity|].
+    f_equal. apply IH. lia.
+Qed.
+
+Theorem set_bit_spec n v s :
+  Inv s ->
+  if (n <? cap s)%nat then
+    exists s', set_bit n v s = (s', Ok tt) /\ Inv s' /\
+      len s' = len s /\ cap s' = cap s /\ rcur s' = rcur s /\
+      abs s' = (if (n <? len s)%nat then set_nth n v (abs s) else abs s)
+  else set_bit n v s = (s, Err EOverflow).
+Proof.
+  intros (H1 & H2 & H3 & H4). unfold set_bit.
+  destruct (Nat.leb_spec (cap s) n) as [Hc|Hc], (Nat.ltb_spec n (cap s)); try lia; [reflexivity|].
+  rewrite set_nth_opt_spec.
+  destruct (Nat.ltb_spec n (length (buf s))); [|lia].
+  eexists; split; [reflexivity|].
+  unfold Inv, abs; cbn [buf cap len rcur]. rewrite set_nth_length.
+  splits; try lia; try reflexivity.
+  destruct (Nat.ltb_spec n (len s)) as [Hn|Hn].
+  - symmetry. apply firstn_set_nth_lt. exact Hn.
+  - apply set_nth_firstn_lt. exact Hn.
+Qed.
 
 Theorem read_remaining_bs_spec s :
   Inv s ->
